@@ -71,32 +71,115 @@ def _could_be_false(e):
     return not (isinstance(e, ast.Constant) and e.value is True)
 
 
+# library callables KNOWN to hand back a new object that shares nothing with their arguments; any other library callable
+# (numpy, builtins, the standard library, dunder and unknown methods) may hand back (a view / an item of) what it was given
+NP_FRESH = {
+    "zeros", "ones", "full", "empty", "zeros_like", "ones_like", "full_like", "empty_like", "arange", "linspace", "eye", "identity",
+    "copy", "concatenate", "stack", "hstack", "vstack", "dstack", "column_stack", "append", "insert", "delete", "repeat", "tile", "where",
+    "nonzero", "flatnonzero", "argwhere", "unique", "sort", "argsort", "searchsorted", "isin", "in1d", "intersect1d", "union1d", "setdiff1d",
+    "sum", "prod", "mean", "std", "var", "min", "max", "amin", "amax", "nanmin", "nanmax", "nanmean", "nansum", "argmin", "argmax", "ptp",
+    "any", "all", "count_nonzero", "cumsum", "cumprod", "diff", "dot", "matmul", "cross", "outer", "inner", "tensordot", "trace", "abs",
+    "absolute", "sqrt", "square", "exp", "log", "log2", "log10", "sin", "cos", "tan", "arcsin", "arccos", "arctan", "arctan2", "deg2rad",
+    "rad2deg", "floor", "ceil", "rint", "round", "around", "sign", "negative", "add", "subtract", "multiply", "divide", "true_divide",
+    "floor_divide", "power", "mod", "remainder", "maximum", "minimum", "fmax", "fmin", "hypot", "clip", "isnan", "isfinite", "isinf",
+    "isclose", "allclose", "array_equal", "equal", "not_equal", "greater", "less", "greater_equal", "less_equal", "logical_and",
+    "logical_or", "logical_not", "logical_xor", "bitwise_and", "bitwise_or", "bitwise_xor", "invert", "left_shift", "right_shift",
+    "iinfo", "finfo", "dtype", "issubdtype", "can_cast", "result_type", "promote_types", "shape", "ndim", "size", "cumulative_sum",
+    "bincount", "histogram", "digitize", "interp", "take", "take_along_axis", "choose", "compress", "select", "packbits", "unpackbits",
+    "fromiter", "fromstring", "char.add", "char.strip", "char.upper", "char.lower", "linalg.norm", "linalg.det", "linalg.inv",
+    "linalg.svd", "linalg.eig", "linalg.eigh", "linalg.solve", "linalg.lstsq", "linalg.pinv", "linalg.matrix_rank", "quantile",
+    "percentile", "median", "average", "lexsort", "indices", "triu_indices", "tril_indices", "diag_indices", "ix_", "sign", "float32",
+    "float64", "int8", "int16", "int32", "int64", "uint8", "uint16", "uint32", "uint64", "bool_", "str_", "pad", "roll", "kron", "array_str",
+    "array_repr", "tobytes", "random.rand", "random.random", "random.randint", "random.choice", "random.permutation", "random.default_rng",
+    "isscalar", "iterable", "lcm", "gcd", "convolve", "correlate", "vectorize", "frompyfunc", "char.array", "core.defchararray.add",
+    "loadtxt", "genfromtxt", "load", "datetime64", "timedelta64", "errstate", "printoptions", "testing.assert_allclose", "where",
+}
+BUILTIN_FRESH = {"len", "int", "float", "bool", "str", "bytes", "bytearray", "repr", "ord", "chr", "hash", "abs", "round", "sum", "any", "all",
+                 "isinstance", "issubclass", "hasattr", "callable", "range", "format", "divmod", "pow", "id", "type", "print", "slice",
+                 "open", "input", "bin", "hex", "oct", "ascii", "complex", "object", "super", "memoryview_"}
+# builtins that build a new container of their argument's items
+BUILTIN_COLLECT = {"list", "tuple", "dict", "sorted", "set", "frozenset", "reversed", "zip", "enumerate", "map", "filter", "iter"}
+_BUILTIN_NAMES = set(dir(__import__("builtins")))
+DOTTED_FRESH_PREFIXES = ("math.", "os.", "re.", "struct.", "json.", "warnings.", "logging.", "time.", "datetime.", "shutil.", "sys.", "string.",
+                         "textwrap.", "hashlib.", "base64.", "subprocess.", "tempfile.", "glob.", "numbers.", "msgpack.", "io.", "requests.",
+                         "urllib.", "tarfile.", "zipfile.", "gzip.", "pathlib.", "Path", "abc.", "enum.", "functools.lru_cache", "functools.wraps")
+# methods known to hand back a new object whatever the receiver is (text, numbers, reductions, copies of arrays)
+FRESH_METHODS = {"tolist", "sum", "mean", "min", "max", "any", "all", "nonzero", "cumsum", "cumprod", "argsort", "argmax", "argmin", "flatten",
+                 "tobytes", "join", "split", "rsplit", "strip", "lstrip", "rstrip", "format", "lower", "upper", "encode", "decode", "count",
+                 "index", "startswith", "endswith", "find", "rfind", "replace", "isdigit", "isalpha", "isalnum", "isupper", "islower", "title",
+                 "capitalize", "std", "var", "prod", "dot", "round", "item", "ljust", "rjust", "zfill", "center", "splitlines", "isspace",
+                 "union", "intersection", "difference", "symmetric_difference", "issubset", "issuperset", "isdisjoint", "bit_length",
+                 "is_integer", "trace", "ptp", "searchsorted", "repeat", "__len__", "__eq__", "__ne__", "__lt__", "__le__", "__gt__", "__ge__",
+                 "__hash__", "__str__", "__repr__", "__contains__", "__bool__", "__int__", "__float__", "extends", "total_seconds", "hexdigest",
+                 "strftime", "read", "readline", "readlines", "write", "group", "groups", "span", "match", "search", "fullmatch", "findall",
+                 "sub", "as_integer_ratio", "isoformat", "array_length", "stack_depth", "get_atom_count", "get_bond_count", "get_symbols",
+                 "get_alphabet", "get_annotation_categories", "score_matrix", "shape_3d"}
+
+
+def _first_or_keyword(c):
+    """the argument a numpy view function looks at: the first positional one, or - given by keyword - any of them"""
+    if c.args:
+        return [c.args[0]]
+    return [k.value for k in c.keywords]
+
+
 def call_kind(c, local_callables=()):
-    """'fresh' (a new object), 'first' (may share storage with the first argument), 'receiver', or 'any' (any argument or the receiver)"""
+    """'fresh' (a new object that shares nothing), 'collect' (a new container of the argument's items), 'first' (may share storage
+    with the first argument), 'receiver', or 'any' (any argument or the receiver).
+    Callables written on the spot (lambdas, local defs, parameters, `f()(..)`) and LIBRARY callables that are not known to be
+    fresh answer 'any' / 'receiver'; a function of the repository called by its plain name answers 'fresh' here (inside one
+    module `effects` replaces that by the callee's own return summary)."""
     fn = call_name(c) or ""
     if not isinstance(c.func, (ast.Name, ast.Attribute)):
         return "any"                      # (lambda v: v)(x), table[k](x), f()(x)
+    star_kw = any(k.arg is None for k in c.keywords)
     if isinstance(c.func, ast.Name):
-        if c.func.id in local_callables:
+        nm = c.func.id
+        if nm in local_callables:
             return "any"
+        if nm in BUILTIN_COLLECT:
+            return "collect"
+        if nm in BUILTIN_FRESH:
+            return "fresh"
+        if nm in _BUILTIN_NAMES:
+            return "any"                  # max(x, y), min, next, getattr, vars, ...
         return "fresh"
     tail = _np_tail(fn)
     if tail is not None:
         last = tail.split(".")[-1]
         if last == "array":
             cp = [k.value for k in c.keywords if k.arg == "copy"]
-            return "fresh" if not cp or not _could_be_false(cp[0]) else "first"
-        if any(k.arg == "out" for k in c.keywords):
+            return "fresh" if not star_kw and (not cp or not _could_be_false(cp[0])) else "first"
+        if any(k.arg == "out" for k in c.keywords) or star_kw:
             return "any"
-        return "first" if last in VIEW_FUNCS else "fresh"
+        if last in VIEW_FUNCS:
+            return "first"
+        return "fresh" if (tail in NP_FRESH or last in NP_FRESH) else "any"
     m = c.func.attr
+    base = c.func.value
+    root = base
+    while isinstance(root, ast.Attribute):
+        root = root.value
+    dotted_mod = isinstance(root, ast.Name) and not isinstance(base, ast.Name) or isinstance(base, ast.Name) and fn.startswith(DOTTED_FRESH_PREFIXES)
+    if fn.startswith(DOTTED_FRESH_PREFIXES) or fn in ("copy.deepcopy",):
+        return "fresh"
+    if fn == "copy.copy":
+        return "collect"
     if m == "astype":
         cp = [k.value for k in c.keywords if k.arg == "copy"]
         if len(c.args) >= 5:              # ndarray.astype(dtype, order, casting, subok, copy)
             cp.append(c.args[4])
-        return "fresh" if not cp or not _could_be_false(cp[0]) else "receiver"
-    if m in VIEW_METHODS:
+        return "fresh" if not star_kw and (not cp or not _could_be_false(cp[0])) else "receiver"
+    if m == "copy":
+        return "copy"                     # a new array - or a new container holding the same items
+    if m in VIEW_METHODS or m.startswith("__") and m.endswith("__") and m not in FRESH_METHODS:
         return "receiver"
+    if m in FRESH_METHODS:
+        return "fresh"
+    if isinstance(base, ast.Name) and base.id[:1].isupper():
+        return "fresh"                    # Class.method(..): a constructor / class-level function of the repository
+    if isinstance(base, ast.Name) and base.id in ("itertools", "operator", "functools", "contextlib", "copy", "collections"):
+        return "any"
     return "fresh"
 
 
@@ -107,7 +190,7 @@ def roots2(e, al=None, local_callables=(), on_call=None, holds=None):
     `al` / `holds` map a name to its two sets (None: every name is its own origin and holds nothing)."""
     def of(name):
         if al is None:
-            return {name}, set()
+            return {name}, set((holds or {}).get(name, ()))
         return set(al.get(name, ())), set((holds or {}).get(name, ()))
 
     def both(p):
@@ -147,7 +230,12 @@ def roots2(e, al=None, local_callables=(), on_call=None, holds=None):
             al, holds = saved
 
     def r(x):
-        if x is None or isinstance(x, (ast.Constant, ast.JoinedStr, ast.Compare, ast.BinOp, ast.Slice)):
+        if x is None or isinstance(x, (ast.Constant, ast.JoinedStr, ast.Compare, ast.Slice)):
+            return set(), set()
+        if isinstance(x, ast.BinOp):
+            # arithmetic on arrays / numbers gives a new object; `[x] * 1`, `[] + [x]`, `box + [x]` give a container of the same items
+            if isinstance(x.op, (ast.Add, ast.Mult)) and any(isinstance(o, (ast.List, ast.Tuple, ast.Set, ast.Dict, ast.ListComp)) for o in (x.left, x.right)):
+                return set(), both(join([r(x.left), r(x.right)]))
             return set(), set()
         if isinstance(x, ast.Name):
             return of(x.id)
@@ -155,7 +243,13 @@ def roots2(e, al=None, local_callables=(), on_call=None, holds=None):
             # lowered Cython `&x` is `+x`: a pointer into x
             return r(x.operand) if isinstance(x.op, ast.UAdd) and isinstance(x.operand, (ast.Name, ast.Subscript, ast.Attribute)) else (set(), set())
         if isinstance(x, ast.Attribute):
-            return (set(), set()) if x.attr in IMMUTABLE_ATTRS or x.attr.isupper() else elem(r(x.value))
+            if x.attr in IMMUTABLE_ATTRS or named_constant(x):
+                return set(), set()
+            if al is None and isinstance(x.value, ast.Name) and x.value.id in ("self", "cls"):
+                # the fields of the instance are told apart (one level): `self._annot[k] = v` does not touch what `self.coord` is
+                fld = f"{x.value.id}.{x.attr}"
+                return {fld}, set((holds or {}).get(fld, ()))
+            return elem(r(x.value))
         if isinstance(x, (ast.Subscript, ast.Starred)):
             return elem(r(x.value))
         if isinstance(x, (ast.Await, ast.NamedExpr, ast.FormattedValue)):
@@ -174,20 +268,30 @@ def roots2(e, al=None, local_callables=(), on_call=None, holds=None):
                 if ans is not None:
                     return set(ans), set()
             kind = call_kind(x, local_callables)
+            every = list(x.args) + [k.value for k in x.keywords]
             if kind == "fresh":
-                # constructors of containers keep the items: list(xs), tuple(xs), dict(d), sorted(xs), set(xs)
-                if isinstance(x.func, ast.Name) and x.func.id in ("list", "tuple", "dict", "sorted", "set", "frozenset", "reversed", "zip", "enumerate") and x.args:
-                    return set(), both(join([r(a) for a in x.args]))
+                # constructors of the repository (`Annotation(features)`, `dict(k=x)`-like keyword holders) keep what they are given
+                cn_ = x.func.id if isinstance(x.func, ast.Name) else x.func.attr if isinstance(x.func, ast.Attribute) else ""
+                if cn_.endswith(("Error", "Exception", "Warning")):
+                    return set(), both(join([r(a) for a in every]))      # an exception carries its arguments
                 return set(), set()
+            if kind == "collect":
+                return set(), both(join([r(a) for a in every]))
+            if kind == "copy":
+                p_ = r(x.func.value)
+                return set(), set(p_[1])
             if kind == "first":
-                return elem(r(x.args[0])) if x.args else (set(), set())
+                return elem(join([r(a) for a in _first_or_keyword(x)])) if every else (set(), set())
             if kind == "receiver":
                 return elem(r(x.func.value))
-            ps = [r(a) for a in list(x.args) + [k.value for k in x.keywords]]
+            ps = [r(a) for a in every]
             if isinstance(x.func, ast.Attribute):
                 ps.append(r(x.func.value))
             elif not isinstance(x.func, ast.Name):
                 ps.extend(of(n.id) for n in ast.walk(x.func) if isinstance(n, ast.Name))
+            elif isinstance(x.func, ast.Name) and isinstance(local_callables, dict):
+                # a local function may hand back what it captured
+                ps.extend(of(n) for n in local_callables.get(x.func.id, ()))
             return elem(join(ps))
         if isinstance(x, (ast.ListComp, ast.SetComp, ast.DictComp, ast.GeneratorExp)):
             return comp(x)
@@ -205,9 +309,30 @@ def roots(e, al=None, local_callables=(), on_call=None):
     return s_ | h_
 
 
+def named_constant(e):
+    """`Enum.MEMBER`, `Class.CONSTANT`, `np.newaxis`-like: an upper-case attribute of a class or module NAME (an upper-case
+    attribute of an object - `x.T` - is part of that object)"""
+    if not (isinstance(e, ast.Attribute) and e.attr.isupper()):
+        return False
+    b = e.value
+    while isinstance(b, ast.Attribute):
+        b = b.value
+    return isinstance(b, ast.Name) and (b.id[:1].isupper() or b.id in ("np", "numpy", "math", "sys", "os", "re", "cls", "self")) \
+        and not (isinstance(e.value, ast.Name) and e.value.id in ("self", "cls") and len(e.attr) == 1)
+
+
+def written_names(target):
+    """names whose object may change when something is stored into / called on `target` (an expression): its roots - not just
+    the name at the bottom of a subscript chain (`np.asarray(x)[:] = 0`, `x.view().fill(0)`, `(a if c else b)[i] = v`)"""
+    return roots(target)
+
+
 def base_name(t):
-    """the name at the bottom of a chain of subscripts / attributes (None if there is none)"""
+    """the name at the bottom of a chain of subscripts / attributes (None if there is none); a field of the instance
+    (`self.attr[..]`) is the pseudo-name `self.attr`"""
     while isinstance(t, (ast.Subscript, ast.Attribute, ast.Starred)):
+        if isinstance(t, ast.Attribute) and isinstance(t.value, ast.Name) and t.value.id in ("self", "cls"):
+            return f"{t.value.id}.{t.attr}"
         t = t.value
     if isinstance(t, ast.UnaryOp) and isinstance(t.op, ast.UAdd):
         return base_name(t.operand)
@@ -286,14 +411,26 @@ def text_names(fn):
     return types
 
 
+class Groups(dict):
+    """{name: frozenset(names that may be the same object)} plus `.holds`: {name: names whose objects it may hold as items}"""
+    holds = {}
+
+
+_ADDERS = {"append", "extend", "add", "insert", "update", "setdefault", "appendleft", "extendleft", "__setitem__", "put", "push"}
+
+
 def groups(fn, extra_stmts=()):
-    """flow-insensitive may-alias classes of the local names of one function: {name: frozenset(names)} (names that are
-    alone are not listed).  Two names are in one class when one is bound to a value that may share storage with the other
-    anywhere in the function (assignments, tuple assignments, for targets, with .. as, walrus, nested functions that
-    mention the name)."""
+    """flow-insensitive may-alias information about the local names of one function.
+    classes: two names are in one class when one is bound to a value that may BE (share storage with) the other anywhere in
+    the function (assignments, tuple assignments, for targets, with .. as, walrus, nested functions that mention the name);
+    holds: a name holds another when a container display, a collecting builtin, an `append`-like call, `box += [x]` or a
+    store `box[k] = x` / `obj.a = x` puts the other's object into it.  Reading an item (`box[0]`, `for row in box`) may yield
+    what the container is a view of or what it holds."""
     parent = {}
+    holds = {}
     local_callables = local_callable_names(fn)
     texts = text_names(fn)
+    nodes = list(ast.walk(fn)) + [x for st in extra_stmts for x in ast.walk(st)]
 
     def find(a):
         parent.setdefault(a, a)
@@ -307,52 +444,107 @@ def groups(fn, extra_stmts=()):
         if ra != rb:
             parent[ra] = rb
 
-    def bind(target, value):
+    def r2(e):
+        s_, h_ = roots2(e, None, local_callables, None, holds)
+        return {o for o in s_ if texts.get(o) != "str"}, {o for o in h_ if texts.get(o) != "str"}
+
+    def hold(name, items):
+        if name is not None and items:
+            cur = holds.setdefault(name, set())
+            if not items <= cur:
+                cur |= items
+                changed[0] = True
+
+    def bind(target, value, item=False):
         if isinstance(target, (ast.Tuple, ast.List)) and isinstance(value, (ast.Tuple, ast.List)) and len(target.elts) == len(value.elts) \
                 and not any(isinstance(x, ast.Starred) for x in list(target.elts) + list(value.elts)):
             for t, v in zip(target.elts, value.elts):
-                bind(t, v)
+                bind(t, v, item)
             return
         if text_type(value, texts) == "str":
             return              # text is immutable: nothing can be changed through it
-        rs = {o for o in roots(value, None, local_callables) if texts.get(o) != "str"}
-        for x in ast.walk(target):
-            if isinstance(x, ast.Name) and isinstance(x.ctx, ast.Store):
-                for o in rs:
-                    union(x.id, o)
-        # storing an object into a container / attribute makes the container hold it: `box[0] = x`, `obj.a = x`
-        b = base_name(target)
-        if b is not None and not isinstance(target, ast.Name):
-            for o in rs:
-                union(b, o)
+        s_, h_ = r2(value)
+        if item:
+            s_, h_ = s_ | h_, h_
+        if isinstance(target, ast.Name):
+            for o in s_:
+                union(target.id, o)
+            hold(target.id, h_)
+        elif isinstance(target, (ast.Tuple, ast.List, ast.Starred)):
+            for x in (target.elts if not isinstance(target, ast.Starred) else [target.value]):
+                bind_items(x, s_ | h_, h_)
+        else:
+            # storing an object into a container / attribute makes the container hold it: `box[0] = x`, `obj.a = x`
+            # (a store with a multi-dimensional index - `table[0, 1:] = v` - is NumPy's: the values are copied in)
+            if not (isinstance(target, ast.Subscript) and isinstance(target.slice, ast.Tuple)):
+                hold(base_name(target), s_ | h_)
 
-    for n in list(ast.walk(fn)) + [x for st in extra_stmts for x in ast.walk(st)]:
-        if isinstance(n, ast.Assign):
-            for t in n.targets:
-                bind(t, n.value)
-        elif isinstance(n, ast.AnnAssign) and n.value is not None:
-            bind(n.target, n.value)
-        elif isinstance(n, ast.NamedExpr):
-            bind(n.target, n.value)
-        elif isinstance(n, (ast.For, ast.AsyncFor, ast.comprehension)):
-            bind(n.target, n.iter)
-        elif isinstance(n, (ast.With, ast.AsyncWith)):
-            for i in n.items:
-                if i.optional_vars is not None:
-                    bind(i.optional_vars, i.context_expr)
-        elif isinstance(n, (ast.FunctionDef, ast.AsyncFunctionDef)) and n is not fn:
-            for x in ast.walk(n):
-                if isinstance(x, ast.Name):
-                    union(n.name, x.id)
+    def bind_items(target, s_, h_):
+        if isinstance(target, ast.Name):
+            for o in s_:
+                union(target.id, o)
+            hold(target.id, h_)
+        elif isinstance(target, (ast.Tuple, ast.List)):
+            for x in target.elts:
+                bind_items(x, s_, h_)
+        elif isinstance(target, ast.Starred):
+            bind_items(target.value, s_, h_)
+        else:
+            hold(base_name(target), s_)
+
+    changed = [True]
+    rounds = 0
+    while changed[0] and rounds < 4:
+        changed[0] = False
+        rounds += 1
+        before = {find(a) for a in parent}, len(parent)
+        for n in nodes:
+            if isinstance(n, ast.Assign):
+                for t in n.targets:
+                    bind(t, n.value)
+            elif isinstance(n, ast.AnnAssign) and n.value is not None:
+                bind(n.target, n.value)
+            elif isinstance(n, ast.NamedExpr):
+                bind(n.target, n.value)
+            elif isinstance(n, ast.AugAssign):
+                # `box += [x]` / `box |= {x}`: the container takes the items in
+                s_, h_ = r2(n.value)
+                hold(base_name(n.target), h_ | (s_ if isinstance(n.value, (ast.Name, ast.Call, ast.Attribute, ast.Subscript)) and False else set()))
+            elif isinstance(n, (ast.For, ast.AsyncFor, ast.comprehension)):
+                bind(n.target, n.iter, item=True)
+            elif isinstance(n, (ast.With, ast.AsyncWith)):
+                for i in n.items:
+                    if i.optional_vars is not None:
+                        bind(i.optional_vars, i.context_expr)
+            elif isinstance(n, ast.ExceptHandler) and n.name:
+                # the exception carries what it was raised with
+                for r_ in nodes:
+                    if isinstance(r_, ast.Raise) and isinstance(r_.exc, ast.Call):
+                        for a_ in list(r_.exc.args) + [k.value for k in r_.exc.keywords]:
+                            s_, h_ = r2(a_)
+                            hold(n.name, s_ | h_)
+            elif isinstance(n, ast.Call) and isinstance(n.func, ast.Attribute) and n.func.attr in _ADDERS:
+                items = set()
+                for a_ in list(n.args) + [k.value for k in n.keywords]:
+                    s_, h_ = r2(a_)
+                    items |= s_ | h_
+                hold(base_name(n.func.value), items)
+            elif isinstance(n, (ast.FunctionDef, ast.AsyncFunctionDef)) and n is not fn:
+                for x in ast.walk(n):
+                    if isinstance(x, ast.Name):
+                        union(n.name, x.id)
+        if ({find(a) for a in parent}, len(parent)) != before:
+            changed[0] = True
     out = {}
     for a in list(parent):
         out.setdefault(find(a), set()).add(a)
-    res = {}
+    res = Groups()
     for g in out.values():
         if len(g) > 1:
             fg = frozenset(g)
             for a in g:
                 res[a] = fg
+    res.holds = {k: set(v) for k, v in holds.items()}
     return res
 
 
@@ -363,15 +555,52 @@ def closure_of(names, grp):
     return out
 
 
+def held_closure(names, grp):
+    """everything reachable from the names through `holds` (and the classes of what is reached)"""
+    holds = getattr(grp, "holds", {}) or {}
+    seen = set()
+    todo = list(closure_of(names, grp))
+    while todo:
+        n = todo.pop()
+        for h in holds.get(n, ()):
+            for m in closure_of({h}, grp):
+                if m not in seen:
+                    seen.add(m)
+                    todo.append(m)
+    return seen
+
+
+def written_through(target, grp=None):
+    """names whose objects may change when something is stored into `target` (the expression that is subscripted / whose attribute
+    is set / on which a mutating method is called): what it may BE - `box` for `box[k] = v`; `box` and what it holds for
+    `box[k][i] = v`; `x` for `np.asarray(x)[:] = v`, `x.view().fill(0)`, `(x if c else y)[i] = v` - closed under the classes"""
+    holds = getattr(grp, "holds", None) if grp is not None else None
+    s_, _ = roots2(target, None, (), None, holds or {})
+    return closure_of(s_, grp or {})
+
+
+class _Callables(dict):
+    """{name of a local callable: names its body mentions} - `in` / iteration as for a set of names"""
+
+
 def local_callable_names(fn):
     """names bound inside the function that may be called: parameters, nested defs, locals bound to a lambda (a callee that
-    is written on the spot - unlike a library function - may hand back its argument)"""
-    out = set()
+    is written on the spot - unlike a library function - may hand back its argument or what it captured).  A mapping
+    name -> names the callable's body mentions (empty for parameters)."""
+    out = _Callables()
     if isinstance(fn, (ast.FunctionDef, ast.AsyncFunctionDef)):
-        out |= {a.arg for a in ast.walk(fn.args) if isinstance(a, ast.arg)}
+        for a in ast.walk(fn.args):
+            if isinstance(a, ast.arg):
+                out[a.arg] = set()
     for n in ast.walk(fn):
         if isinstance(n, (ast.FunctionDef, ast.AsyncFunctionDef)) and n is not fn:
-            out.add(n.name)
+            own = {a.arg for a in ast.walk(n.args) if isinstance(a, ast.arg)}
+            out[n.name] = {x.id for x in ast.walk(n) if isinstance(x, ast.Name)} - own
         elif isinstance(n, ast.Assign) and isinstance(n.value, ast.Lambda):
-            out |= {t.id for t in n.targets if isinstance(t, ast.Name)}
-    return out - {"self", "cls"}
+            own = {a.arg for a in ast.walk(n.value.args) if isinstance(a, ast.arg)}
+            for t in n.targets:
+                if isinstance(t, ast.Name):
+                    out[t.id] = {x.id for x in ast.walk(n.value.body) if isinstance(x, ast.Name)} - own
+    out.pop("self", None)
+    out.pop("cls", None)
+    return out
